@@ -59,31 +59,38 @@ SmallOps(s) ==
     \cup {[NoArg("Blacklist") EXCEPT !.i = k] : k \in 1..2}
     \cup {[NoArg("Par") EXCEPT !.r = r, !.flag = TRUE] : r \in {1, 2}}
 
-\* simulation: weighted families, depending on how far the history is
-FamStart == <<"setindex", "setindex", "setindex", "setindex", "update", "setfile">>
-FamMid == <<"setindex", "setindex", "setfile", "setfile", "update", "update", "update", "load", "select", "select", "select",
-            "download", "download", "download", "download", "getfile", "getfile", "getfile", "getfile", "getfile",
-            "blacklist", "blacklist", "online", "restart", "par", "par", "setfile">>
-KindBag == <<"v2", "v2", "v2", "v2", "v2", "v2", "old", "garbage">>
-ChanBag == <<"right", "right", "right", "right", "", "", "wrong">>
-PubBag == <<0, 1, 1, 2, 2, 3, 3, 9>>
-ModeBag == <<"ok", "ok", "ok", "ok", "ok", "slow", "404", "500", "trunc">>
+\* simulation: weighted families, the weights follow the situation the model is in (n = calls so far)
+Bag(s, n) ==
+    <<"setindex", "setfile", "update", "load", "select", "download", "getfile", "getfile", "blacklist", "online", "restart", "par">>
+    \o (IF n < 3 THEN <<"setindex", "setindex", "setindex", "setindex", "update", "update">> ELSE <<>>)
+    \o (IF \A u \in 1..s.cfg.nurls : \A i \in I : ~s.srv[u].iok[i] THEN <<"setindex", "setindex", "setindex", "setindex">> ELSE <<"update", "update">>)
+    \o (IF Pending(s, TRUE, TRUE) # {} THEN <<"download", "download", "download", "par", "par", "setfile", "setfile">> ELSE <<>>)
+    \o (IF \E r \in Known(s) : s.res[r].cur # {} /\ s.res[r].cur # {s.res[r].sel} THEN <<"select", "select", "getfile", "getfile">> ELSE <<>>)
+    \o (IF Len(s.handles) > 0 THEN <<"blacklist", "setindex", "update", "select">> ELSE <<"getfile", "getfile">>)
+KindBag == <<"v2", "v2", "v2", "v2", "v2", "v2", "v2", "v2", "old", "garbage">>
+ChanBag == <<"right", "right", "right", "right", "right", "", "", "wrong">>
+PubBag == <<0, 1, 2, 2, 3, 3, 3, 9>>
+ModeBag == <<"ok", "ok", "ok", "ok", "ok", "ok", "ok", "ok", "slow", "404", "500", "trunc">>
 FModeBag == <<"ok", "ok", "slow", "404", "500", "trunc", "404">>
-RelBag == <<0, 2, 3, 3, 4, 6, 6, 7>>
+RelBag == <<0, 2, 3, 3, 4, 4, 6, 6, 6, 7>>
 Rel3Bag == <<0, 0, 0, 0, 2, 6>>
 CtxBag == <<"", "", "", "", "", "", "", "", "", "", "", "cancelled">>
 \* (operators without parameters would be evaluated once and cached by TLC: every draw goes through a parameter)
 Draw(seq, n) == seq[RandomElement(1..Len(seq))]
 
 SimOps(s, n) ==
-    LET fam == IF n < 3 THEN Draw(FamStart, n) ELSE Draw(FamMid, n)
-        u == RandomElement(1..s.cfg.nurls)
+    LET fam == Draw(Bag(s, n), n)
+        u == IF RandomElement(1..3) = 1 THEN RandomElement(1..s.cfg.nurls) ELSE 1
     IN CASE fam = "setindex" ->
               LET m == Draw(ModeBag, n)
                   k == Draw(KindBag, n + 1)
-              IN {Op("SetIndex", 0, 0, u, RandomElement(I), FALSE, m,
+                  i == RandomElement(I)
+                  top == s.lmax[i]
+                  \* mostly not older than what the registry has seen of this index
+                  pubs == <<0, top, top, IF top < 3 THEN top + 1 ELSE 3, IF top < 3 THEN top + 1 ELSE 3, 3, 1, 2, 9>>
+              IN {Op("SetIndex", 0, 0, u, i, FALSE, m,
                      IF m \in FailModes /\ m # "trunc" THEN NoDoc
-                     ELSE Doc(n + 1, k, IF k = "v2" THEN Draw(ChanBag, n) ELSE "", IF k = "v2" THEN Draw(PubBag, n) ELSE 0,
+                     ELSE Doc(n + 1, k, IF k = "v2" THEN Draw(ChanBag, n) ELSE "", IF k = "v2" THEN Draw(pubs, n) ELSE 0,
                               IF k = "garbage" THEN <<0, 0, 0>> ELSE <<Draw(RelBag, n), Draw(RelBag, n + 1), Draw(Rel3Bag, n)>>))}
          [] fam = "setfile" ->
               \* mostly about versions that are current releases somewhere
@@ -101,7 +108,7 @@ SimOps(s, n) ==
                            ELSE {[NoArg("Par") EXCEPT !.r = RandomElement(k), !.flag = RandomElement(BOOLEAN)]}
          [] fam = "blacklist" -> IF Len(s.handles) = 0 THEN {NoArg("Select")}
                                  ELSE {[NoArg("Blacklist") EXCEPT !.i = RandomElement(1..Len(s.handles))]}
-         [] fam = "online" -> {[NoArg("SetOnline") EXCEPT !.flag = RandomElement(BOOLEAN)]}
+         [] fam = "online" -> {[NoArg("SetOnline") EXCEPT !.flag = RandomElement(1..3) > 1]}
          [] fam = "restart" -> {NoArg("Restart")}
 
 OpsNow == IF Emit THEN SimOps(st, Len(hist)) ELSE SmallOps(st)
